@@ -262,7 +262,7 @@ func mkIds(from, n int) []txsubmission.TxIdAndSize {
 	return out
 }
 
-func pairBody(h []op) func() {
+func pairBody(h []op, noDoneFunc bool) func() {
 	// the client application's answers, in callback order
 	var answers []int
 	for _, o := range h {
@@ -278,17 +278,22 @@ func pairBody(h []op) func() {
 		r2 := relay("C>S", tapC, tapS)
 
 		initSeen := make(chan struct{}, 8)
-		scfg := txsubmission.NewConfig(
+		// server configuration: InitFunc is mandatory (Init is refused without it); DoneFunc
+		// is optional and the restart path after Done branches on it, so both are explored
+		sopts := []txsubmission.TxSubmissionOptionFunc{
 			txsubmission.WithInitFunc(func(txsubmission.CallbackContext) error {
 				rt.Log("cb init")
 				rt.Send("h:initSeen", initSeen, struct{}{})
 				return nil
 			}),
-			txsubmission.WithDoneFunc(func(txsubmission.CallbackContext) error {
+		}
+		if !noDoneFunc {
+			sopts = append(sopts, txsubmission.WithDoneFunc(func(txsubmission.CallbackContext) error {
 				rt.Log("cb done")
 				return nil
-			}),
-		)
+			}))
+		}
+		scfg := txsubmission.NewConfig(sopts...)
 		nCb, nIds := 0, 0
 		ccfg := txsubmission.NewConfig(
 			txsubmission.WithRequestTxIdsFunc(func(_ txsubmission.CallbackContext, b bool, ack, req uint16) ([]txsubmission.TxIdAndSize, error) {
@@ -512,7 +517,22 @@ func monitor(logs []string) []rt.Finding {
 	return out
 }
 
-func pairScenario(group string, h []op) e1lib.Scenario {
+// histOf remembers the history of every pair scenario (for the configuration variants).
+var histOf = map[string][]op{}
+
+// hasDone reports whether the history makes the outbound side end the protocol.
+func hasDone(h []op) bool {
+	m := mstate{}
+	for _, o := range h {
+		if !m.over && !o.txs && inRange(o.req) && o.blocking && o.ans < 0 {
+			return true
+		}
+		m = m.step(o)
+	}
+	return false
+}
+
+func pairScenario(group string, h []op, noDoneFunc bool) e1lib.Scenario {
 	h = append([]op(nil), h...)
 	want := mstate{}
 	for _, o := range h {
@@ -565,7 +585,9 @@ func pairScenario(group string, h []op) e1lib.Scenario {
 		}
 		return out
 	}
-	return e1lib.Scenario{Name: group + "|" + histName(h), Body: pairBody(h), Check: check, Cfg: rt.Config{Horizon: time.Hour}}
+	name := group + "|" + histName(h)
+	histOf[name] = h
+	return e1lib.Scenario{Name: name, Body: pairBody(h, noDoneFunc), Check: check, Cfg: rt.Config{Horizon: time.Hour}}
 }
 
 // ---- mirror: a raw misbehaving server against the real Client -----------------------------
@@ -768,7 +790,7 @@ func bfs(maxDepth int, ops []op) (scs []e1lib.Scenario, closedAt int, nStates in
 		for _, n := range frontier {
 			for _, o := range ops {
 				h := append(append([]op(nil), n.rep...), o)
-				scs = append(scs, pairScenario("bfs", h))
+				scs = append(scs, pairScenario("bfs", h, false))
 				st := n.st.step(o)
 				if !st.over && !seen[st] {
 					seen[st] = true
@@ -792,7 +814,7 @@ func all(maxLen int, ops []op, skip map[string]bool) []e1lib.Scenario {
 	rec = func(h []op, st mstate) {
 		if len(h) > 0 {
 			if n := histName(h); !skip[n] {
-				scs = append(scs, pairScenario("all", h))
+				scs = append(scs, pairScenario("all", h, false))
 			}
 		}
 		if len(h) == maxLen || st.over {
@@ -848,12 +870,21 @@ func TestC24(t *testing.T) {
 			handful = handful[:4]
 		}
 		for _, h := range handful {
-			s := pairScenario("sched", h)
+			s := pairScenario("sched", h, false)
 			s.MinB, s.MaxB, s.Budget = 1, 1, 60*time.Second
 			if thorough {
 				s.Budget = 240 * time.Second
 			}
 			scs = append(scs, s)
+		}
+		// configuration dimension: every history that goes through Done (and the re-Init that
+		// follows it) also runs against a server configured WITHOUT the optional DoneFunc
+		for _, s := range append([]e1lib.Scenario(nil), scs...) {
+			if h := histOf[s.Name]; hasDone(h) {
+				v := pairScenario(strings.SplitN(s.Name, "|", 2)[0]+"/DoneFunc=nil", h, true)
+				v.MinB, v.MaxB, v.Budget = s.MinB, s.MaxB, s.Budget
+				scs = append(scs, v)
+			}
 		}
 		for _, s := range mirrors() {
 			s.MinB, s.MaxB, s.Budget = 1, 1, 30*time.Second
